@@ -724,11 +724,16 @@ func c11Twins(c *core.Collector, a, b *svc.Server, base int, rounds int) {
 			return res.kind, tag
 		}
 		got := func(t *svc.Term) (uint32, bool) {
-			rx, ok, to := t.Next(300 * time.Millisecond)
-			if to || !ok {
-				return 0, false
+			// (the frame was written before the call returned; the generous wait only matters on a machine under load)
+			for {
+				rx, ok, to := t.Next(5 * time.Second)
+				if to || !ok {
+					return 0, false
+				}
+				if tag, is := tagOf(rx); is {
+					return tag, true
+				}
 			}
-			return tagOf(rx)
 		}
 		// each server's command reaches its own connection and only that one
 		kA, tagA := send(a)
